@@ -90,6 +90,7 @@ def refreshEntry (o : Obj) (path : Str) (e : Entry) (hashes : Option (List Str))
   | .file t p esize cks =>
     match o with
     | .notdir => .error (.os .ENOTDIR)
+    | .fault k => .error (.os (.code k))
     | .absent => .error (.invalidPath path)
     | .dir d _ _ => if devBad dev? d then .error (.crossDevice path) else .error (.invalidPath path)
     | .special d => if devBad dev? d then .error (.crossDevice path) else .error (.invalidPath path)
@@ -171,6 +172,7 @@ def scanWalk (w : World) (ed : EntryDict) (ss : ScanSt) (sysPath rel : Str) : No
     match scanDir w ed ss sysPath rel dev ino kids with
     | .error e => .error e
     | .ok (ss', keep) => scanKids w ed ss' sysPath rel keep kids
+  | .unreadable k true => .error (.os (.code k))
   | _ => .ok ss
 def scanKids (w : World) (ed : EntryDict) (ss : ScanSt) (sysPath rel : Str) (keep : List Str) :
     List (Str × Node) → Except Err ScanSt
@@ -203,6 +205,7 @@ def loadUnregistered (w : World) (s : St) (path : Str) : Except Err (St × List 
            | .error e => .error e
            | .ok ss => .ok (ss.st, ss.newManifests))
         | some .absent => .error (.os .ENOENT)
+        | some (.fault k) => .error (.os (.code k))
         | some _ => .error (.os .ENOTDIR)
 
 -- get_deduplicated_file_entry_dict_for_update ------------------------------------------------
@@ -448,6 +451,7 @@ def updWalk (w : World) (o : Opts) (newMs : List Str) (ws : WSt) (sysPath rel : 
     match updateDirStep w o newMs ws sysPath rel dev ino kids with
     | .error e => .error e
     | .ok (ws', keep) => updKids w o newMs ws' sysPath rel keep kids
+  | .unreadable k true => .error (.os (.code k))
   | _ => .ok ws
 def updKids (w : World) (o : Opts) (newMs : List Str) (ws : WSt) (sysPath rel : Str) (keep : List Str) :
     List (Str × Node) → Except Err WSt
@@ -491,6 +495,7 @@ def updateDir (w : World) (s : St) (path : Str) (o : Opts) : Except Err St :=
                  | none => .error (.internal .valueError)
                  | some st' => .ok (st'.markUpdated mp')) ws.st ws.ud)
         | some _, some .absent => .error (.os .ENOENT)
+        | some _, some (.fault k) => .error (.os (.code k))
         | some _, some _ => .error (.os .ENOTDIR)
 
 end Gemato.U
